@@ -91,36 +91,67 @@ SPEC = dict(
          "indices and ragged rows) and between registers (clone_from, dst = src.clone(), mem::swap, "
          "mem::replace), 40% of the cases opened by directed scenarios (clone_from into a shrunk destination "
          "with spare capacity, with_capacity + resizes crossing the capacity, fill/shrink/grow, lying len(), "
-         "zero-row / zero-capacity matrices, equal cells through different histories), plus the 253 directed "
-         "cases of corpus/C19. After EVERY op, for EVERY register: rows(), stride(), row addresses mod "
-         "alignment and spacing, ravel() length and layout, whether ravel() is uniform (after fill: padding "
-         "written too), capacity(), all logical cells (80% small values, 20% extremes of the element type), "
-         "and == / != for all "
+         "zero-row / zero-capacity matrices, equal cells through different histories), plus the 309 directed "
+         "cases of corpus/C19 (directed.txt 253, f32eq.txt 56: NaN / -0.0 / infinite cells). After EVERY op, for EVERY "
+         "register: rows(), stride(), the address of every row (decided by the extracted check_mobs: multiple of the "
+         "alignment, r strides after row 0; the struct-level model derives the same addresses from the observed buffer "
+         "address with the layout rule), ravel() length and layout (a boolean computed by the harness: ob_ravel), whether "
+         "ravel() is uniform (after fill: padding "
+         "written too), capacity(), all logical cells (80% small values, 20% extremes of the element type; for f32 in 40% "
+         "of the cases also NaN (two payloads), -0.0, +-infinity and 0.5, with == / != judged by the partial equivalence "
+         "f32c_eqb (DenseF32.v)), and == / != for all "
          "9 register pairs; finally per register iter(), iter().rev(), (&m).into_iter(), (&mut m).into_iter(), "
          "a random pattern of positional calls next()/next_back()/nth(k)/nth_back(k) on iter()/iter_mut()/into_iter() with len() "
-         "after each call, and the std adaptors built on them (skip, rev().skip, step_by, rev().step_by, last, count) - "
-         "judged against the extracted take_steps / steps_lens (C19_iteration_steps, C19_iteration_skip_adaptors), "
+         "after each call, and the std adaptors built on them (skip, rev().skip, step_by, rev().step_by, iter_mut().rev().skip, "
+         "last, count) - part of the final observation record (fobs.f_steps) and decided by the extracted check_steps inside "
+         "check_C19 (sound and complete for the index-level specification sobs_ok: steps_idx, stepby_idx; "
+         "C19_check_steps_sound_complete; C19_iteration_steps, C19_iteration_skip_adaptors, C19_iteration_step_by_adaptors "
+         "relate the list surgery take_steps to it), "
          "a random next()/next_back() pattern continued past exhaustion on iter()/iter_mut()/into_iter with "
          "len() after each call, ==/clone, == against a copy with other history/capacity/padding, == after "
-         "one changed cell. PROPFAIL is decided by the extracted checker check_C19 (proved sound and complete "
-         "for the relation trace_ok); DIFF compares with the struct-level model (data vector, separate rows "
-         "field, capacity lower bound, junk padding). Non-trivial: distinct (T, C, pattern, op list) with a "
+         "one changed cell. PROPFAIL is decided ONLY by the extracted checker check_C19 (proved sound and complete "
+         "for the relation trace_ok, which now includes the positional iterator calls, the row addresses and observer "
+         "panics = ObsBroken / a missing final observation: C19_check_rejects_observer_panic); DIFF compares with the "
+         "struct-level model (data vector, separate rows "
+         "field, capacity lower bound, junk padding; row addresses and stride derived from the observed address of row 0) and "
+         "cross-checks the k of the positional calls (steps-k-mismatch). The alignments 32 / 16, the single field of Row and "
+         "the body of stride() are read from dense.rs on every run (translate/dense_layout.py -> coq/dense/GenDense.v, "
+         "C19_model_matches_source). Resize histories: C19_resize, C19_shrink_then_grow. 28 theorems in C19.v. Non-trivial: distinct (T, C, pattern, op list) with a "
          "resize after a write on the same register or a clone_from/clone from a written register.",
     trusted_base=[
-        "Coq 8.16.1 kernel (coqc); vm_compute only in the four Example lemmas; no native_compute",
-        "extraction: ExtrOcamlBasic only (nat, Z, list, option kept as extracted inductives); OCaml 4.13.1",
-        "hand-written OCaml driver ocaml/dense/driver.ml (parsing of observations into the checker's records; the "
-        "PROPFAIL decision itself is the extracted check_C19; diagnosis text and DIFF comparison are hand-written)",
-        "Rust harness harness/src/bin/dense.rs (op interpreter over the public DenseMatrix API, catch_unwind)",
+        "Coq 8.16.1 kernel (coqc); vm_compute only in the five Example lemmas of C19.v and in the 16x16 grid lemma "
+        "DenseF32Proofs.f32c_eqb_agrees_with_ieee_on_grid; no native_compute",
+        "extraction: ExtrOcamlBasic only (its Extract Inductive directives for bool, option, list, prod, unit, sumbool, sumor); "
+        "no other Extract Inductive, no Extract Constant (nat, Z, positive kept as extracted inductives); OCaml 4.13.1",
+        "hand-written OCaml driver ocaml/dense/driver.ml (parsing of observations into the checker's records, choice of the "
+        "instance eqR = Z.eqb or f32c_eqb from the T= field; every PROPFAIL is check_C19 = false - no hand-written PROPFAIL "
+        "path remains: the former why_steps / OBSPANIC / STEPSPANIC decisions are inside the checker, why_steps / why_fobs / "
+        "why_robs survive as diagnosis text only; diagnosis text and DIFF comparison are hand-written)",
+        "translator translate/dense_layout.py (regex reader of dense.rs: repr(align) of Row per architecture, field count of "
+        "Row, body of stride()) -> coq/dense/GenDense.v; the harness constant ALIGN (cfg x86_64) is what is put into `align=`",
+        "Rust harness harness/src/bin/dense.rs (op interpreter over the public DenseMatrix API, catch_unwind; it computes the "
+        "boolean ob_ravel = ravel() length and layout agree with m[r][c], and the uniform flag of the DIFF after fill())",
+        "the coding of f32 cells as integers in harness/src/bin/dense.rs (impl Val for f32: canonical, injective on bit "
+        "patterns) and its Coq reading coq/dense/DenseF32.v (f32c_eqb = f32 ==; compared with Flocq's binary32 comparison on "
+        "a grid only: C19_f32_eq_agrees_with_ieee_on_grid)",
         "modelled, not verified: dense.rs itself (Vec<Row> with repr(align) rows modelled as rows = C cells + "
         "S-C padding cells holding arbitrary values; Rust's size_of/align rule for repr(align) structs; "
-        "allocator returning align-aligned buffers), Vec capacity (modelled as a lower bound only: with_capacity/"
+        "allocator returning align-aligned buffers (the buffer address is universally quantified over the multiples of the "
+        "alignment in C19_struct_model_meets_spec / C19_every_reachable_state_meets_spec, not threaded through the steps; row "
+        "addresses are derived from it and the alignment conjunct is proved from the rounding of the stride: "
+        "C19_alignment_needs_the_rounding)), Vec capacity (modelled as a lower bound only: with_capacity/"
         "reserve/resize/clone guarantee at least the requested capacity; growth policy not modelled), "
         "derive(Clone)'s default clone_from (= assignment of source.clone()), derive(PartialEq) comparing data then rows",
     ],
     assumptions=[
         "size_of::<T>() divides the row alignment (holds for u8/u32/f32/i64 and 32/16)",
         "padding bytes and uninitialized rows may hold any value and may change at every operation (universally quantified in the theorems)",
-        "C19_check_sound/complete: the element comparison used by the checker decides equality (Z.eqb for the extracted instance, C19_check_extracted_instance)",
+        "C19_check_sound/complete: idT decides identity of cell values (Z.eqb on values / f32 codes); the element == (eqR) is "
+        "arbitrary - Z.eqb for u8/u32/i64, f32c_eqb for f32 (C19_check_extracted_instance, C19_check_extracted_instance_f32); "
+        "C19_eq_lifts_element_eq: == on matrices is = when eqR is Leibniz; C19_f32_eq_is_partial_equivalence for f32",
+        "C19_struct_model_meets_spec needs 0 < size, 0 < align, align mod size = 0, S = stride size C align and buffer addresses "
+        "that are multiples of align",
+        "dense.rs selects align(16) with not(target_arch = \"x86_64\"), so 32-bit x86 gets 16 although the property text says "
+        "non-x86 (recorded, harmless); only the x86_64 value is exercised by the harness",
     ],
 )
